@@ -34,7 +34,8 @@ func (o goMapObject) toKey(name string) reflect.Value {
 	if err != nil {
 		panic(newError(nil, "TypeError", 0, "%q is not a key of %s", name, o.value.Type()))
 	}
-	return reflectValue
+	// the key type may be a declared named type (type Port uint16)
+	return reflectValue.Convert(o.keyType)
 }
 
 func (o goMapObject) toValue(value Value) reflect.Value {
@@ -65,7 +66,7 @@ func goMapGetOwnProperty(obj *object, name string) *property {
 		return nil
 	}
 
-	value := goObj.value.MapIndex(key)
+	value := goObj.value.MapIndex(key.Convert(goObj.keyType))
 	if value.IsValid() {
 		return &property{obj.runtime.toValue(value.Interface()), 0o111}
 	}
@@ -111,7 +112,7 @@ func goMapDelete(obj *object, name string, throw bool) bool {
 		// not a possible key: there is no such property (8.12.7 step 2)
 		return true
 	}
-	goObj.value.SetMapIndex(key, reflect.Value{})
+	goObj.value.SetMapIndex(key.Convert(goObj.keyType), reflect.Value{})
 	// FIXME
 	return true
 }
